@@ -272,7 +272,16 @@ def translate_now():
     except Exception:
         rep['conv'] = {'error': out14[-500:]}
         rep['untranslatable'].append({'name': 'converting constructors', 'group': 'Copy', 'why': out14[-500:]})
-    return rep, out + out2 + out3 + out4 + out5 + out6 + out7 + out8 + out9 + out10 + out11 + out12 + out13 + out14
+    # the class-scope static_asserts of the layer and view templates (Gen_Asserts.v)
+    rc15, out15 = sh([sys.executable, os.path.join(VERIF, 'tools', 'cxx_asserts.py'), REPO, os.path.join(COQ, 'gen', 'Gen_Asserts.v')], timeout=900)
+    try:
+        rep['asserts'] = json.loads(out15.strip().split('\n')[-1])
+        for pr in rep['asserts']['problems']:
+            rep['untranslatable'].append({'name': 'static_asserts', 'group': 'Asserts', 'why': pr})
+    except Exception:
+        rep['asserts'] = {'error': out15[-500:]}
+        rep['untranslatable'].append({'name': 'static_asserts', 'group': 'Asserts', 'why': out15[-500:]})
+    return rep, out + out2 + out3 + out4 + out5 + out6 + out7 + out8 + out9 + out10 + out11 + out12 + out13 + out14 + out15
 
 
 def coq_makefile():
